@@ -34,6 +34,7 @@ ValSet(name) ==
       [] name = "bool" -> {VNull, VBool(TRUE), VBool(FALSE), VInt(1)}
       [] name = "c02" -> {VNull, VInt(1), VInt(2), VFlt(4), VStr("a")}
       [] name = "c02b" -> {VNull, VInt(2), VFlt(4), VBool(TRUE)}
+      [] name = "num2" -> {VInt(2), VFlt(4)}
 LabelOrder == <<"A", "B">>
 LabSeq(S) == SelectSeq(LabelOrder, LAMBDA x : x \in S)
 
@@ -557,6 +558,8 @@ AllLabelsLaw ==
             \A i \in DOMAIN c.paths : \A j \in 1..(Len(c.paths[i].segs) + 1) :
                LET pat == NodePatAt(c.paths[i], j) IN
                pat.x # "" => \A k \in DOMAIN pat.labels : pat.labels[k] \in G.nodes[m[pat.x].n].labels
+\* C02 on the design: the answer is a function of the logical graph; a planner deviation (Dev) changes it (self-test)
+DevAgrees == Asked => Poss(G, q, {}) = Poss(G, q, Dev)
 \* count(*) over the rows of a query = the size of its bag
 CountLaw ==
     (Asked /\ Len(q.parts) = 1) =>
